@@ -94,6 +94,30 @@ func osTemplates() []osTemplate {
 		{Name: "os.stderr", Covers: "os.stderr", Body: `os.stderr.write("ERR-MARK"); return "w"`, Methods: []string{"Stderr", "Std.Write"}, Stderr: "ERR-MARK", ExitCode: -1},
 		{Name: "os.exit", Covers: "os.exit", Body: `os.exit(0); return "after-exit"`, Contains: []string{"after-exit"}, Methods: []string{"Exit"}, ExitCode: 0},
 		{Name: "os.exit#3", Covers: "os.exit", Body: `os.exit(3); return "after-exit"`, Contains: []string{"exit(3)"}, Methods: []string{"Exit"}, ExitCode: 3},
+		// argument variety and second uses of the same callable
+		T("os.getenv#twice", `a := os.getenv("SIMONLY"); os.setenv("SIMONLY", "changed-by-script"); return a + "|" + os.getenv("SIMONLY")`, []string{"only-in-sim|changed-by-script"}, []string{"Getenv", "Setenv"}, false),
+		T("os.read_file#abs", `return string(os.read_file("/simroot/work/dir/sub/c.txt"))`, []string{"gamma-sim"}, []string{"ReadFile"}, true),
+		T("os.read_file#twice", `a := string(os.read_file("a.txt")); os.write_file("a.txt", "rewritten-sim"); return a + "|" + string(os.read_file("a.txt"))`, []string{"alpha-sim", "|rewritten-sim"}, []string{"ReadFile", "WriteFile"}, true),
+		T("os.write_file#perm", `os.write_file("/simroot/tmp/p.txt", "perm-sim", 384); return string(os.read_file("/simroot/tmp/p.txt"))`, []string{"perm-sim"}, []string{"WriteFile"}, true),
+		T("os.mkdir#perm", `os.mkdir("/simroot/work/permdir", 448); return string(os.stat("/simroot/work/permdir").is_dir)`, []string{"true"}, []string{"Mkdir"}, true),
+		T("os.mkdir_all#perm", `os.mkdir_all("/simroot/deep/er/still", 488); return string(os.stat("/simroot/deep/er").is_dir)`, []string{"true"}, []string{"MkdirAll"}, true),
+		T("os.read_dir#abs", `return string(os.read_dir("/simroot/work/dir").map(func(e) { return e.name }))`, []string{"b.txt", "sub"}, []string{"ReadDir"}, true),
+		T("os.stat#dir", `s := os.stat("dir"); return s.name + ":" + string(s.is_dir)`, []string{"dir:true"}, []string{"Stat"}, true),
+		T("os.rename#dir", `os.rename("dir", "moved"); return string(os.read_file("moved/b.txt"))`, []string{"beta-sim"}, []string{"Rename", "ReadFile"}, true),
+		T("os.chdir#relative-then-read", `os.chdir("dir"); os.chdir("sub"); return os.getwd() + ":" + string(os.read_file("c.txt"))`, []string{"/simroot/work/dir/sub:gamma-sim"}, []string{"Chdir", "ReadFile"}, true),
+		T("os.create#then-open", `f := os.create("dir/n.txt"); f.write("one-sim"); f.close(); g := os.open("dir/n.txt"); d := string(g.read()); g.close(); return d`, []string{"one-sim"}, []string{"Create", "Open"}, true),
+		T("os.lookup_user#twice", `a := os.lookup_user("simuser"); b := os.lookup_user("simuser"); return string(a) + string(b)`, []string{"Sim User"}, []string{"LookupUser"}, true),
+		T("os.hostname#twice", `return os.hostname() + "|" + os.hostname()`, []string{"sim-host|sim-host"}, []string{"Hostname"}, true),
+		T("os.environ#after-set", `os.setenv("ZZ_SIM", "1"); return string(sorted(os.environ()))`, []string{"ZZ_SIM=1", "SIMONLY=only-in-sim"}, []string{"Setenv", "Environ"}, true),
+		T("filepath.abs#dotdot", `return filepath.abs("dir/../rel2/y.txt")`, []string{"/simroot/work/rel2/y.txt"}, []string{"Getwd"}, true),
+		T("filepath.abs#already-abs", `return filepath.abs("/already/abs.txt")`, []string{"/already/abs.txt"}, nil, false),
+		T("filepath.walk_dir#abs", `names := []; filepath.walk_dir("/simroot/work", func(p, d, e) { names.append(p) }); return string(names)`, []string{"/simroot/work/a.txt", "/simroot/work/dir/sub/c.txt"}, []string{"WalkDir"}, true),
+		T("builtin.cat#abs", `return string(cat("/simroot/work/a.txt"))`, []string{"alpha-sim"}, []string{"ReadFile"}, true),
+		T("builtin.cp#into-dir", `cp("a.txt", "dir/a-copy.txt"); return string(ls("dir").map(func(e) { return e.name }))`, []string{"a-copy.txt"}, []string{"ReadFile", "WriteFile", "ReadDir"}, true),
+		T("builtin.ls#noarg", `return string(ls().map(func(e) { return e.name }))`, []string{"a.txt", "dir"}, []string{"ReadDir"}, true),
+		{Name: "builtin.print#multi", Covers: "builtin.print", Body: `print("A-MARK"); print("B-MARK", [1, 2], {"k": 1}); return "p"`, Methods: []string{"Stdout", "Std.Write"}, Stdout: "B-MARK [1, 2] {\"k\": 1}\n", ExitCode: -1},
+		T("file.write#append-seek", `f := os.create("ws.txt"); f.write("12345"); f.seek(1, 0); f.write("ab"); f.close(); return string(os.read_file("ws.txt"))`, []string{"1ab45"}, []string{"Create", "File.Write", "File.Seek"}, true),
+		T("file.read#buffer-twice", `f := os.open("a.txt"); a := string(f.read(byte_slice([0, 0, 0, 0, 0]))); b := string(f.read(byte_slice([0, 0, 0, 0]))); f.close(); return a + "|" + b`, []string{"alpha|-sim"}, []string{"Open", "File.Read"}, true),
 		// shell-style builtins
 		T("builtin.cat", `return string(cat("a.txt", "dir/b.txt"))`, []string{"alpha-sim", "beta-sim"}, []string{"ReadFile"}, true),
 		T("builtin.cd", `cd("dir"); return os.getwd()`, []string{"/simroot/work/dir"}, []string{"Chdir"}, true),
